@@ -10,6 +10,12 @@ All floats in the answer are float32 values widened to Python floats (exact).  T
 the public API (md.Trajectory + unitcell_vectors setter), so the cell the kernels see is whatever
 traj.unitcell_vectors returns (lengths/angles round trip); it is reported back as box_seen (float32).
 "core_raw" hands the given cell array directly to compute_distances_core (no round trip).
+
+HISTORY ("chain": id on a case): consecutive cases with the same chain id are steps of ONE call history in this
+process: they share one Trajectory object (xyz and unitcell_vectors are re-assigned for every step) and one cell
+array object for core_raw, which is REFILLED IN PLACE before every call (same ndarray identity, new contents).
+"call_args" on a call ("glue" api): the arguments are passed to the named function as given (possibly invalid index
+lists, a cell array of the wrong length, empty lists); the answer is {"err": class} or {"shape", "data"}.
 """
 import json
 import sys
@@ -41,11 +47,23 @@ def main():
     import mdtraj as md
     from mdtraj.geometry.distance import compute_distances_core
     out = []
+    chains = {}
     for c in payload["cases"]:
         scale = 2.0 ** (-c.get("grid", 10))
         xyz = (np.array(c["xyz"], dtype=np.float64) * scale).astype(np.float32)
         box = None if c["box"] is None else np.array(c["box"], dtype=np.float32)
-        t = build_traj(md, xyz, box)
+        chain = chains.get(c.get("chain")) if c.get("chain") is not None else None
+        hist_buf = None
+        if chain is not None and chain["traj"].xyz.shape == xyz.shape and box is not None and chain["buf"].shape == box.shape:
+            t = chain["traj"]
+            t.xyz = xyz
+            t.unitcell_vectors = box
+            hist_buf = chain["buf"]
+        else:
+            t = build_traj(md, xyz, box)
+            if c.get("chain") is not None and box is not None:
+                hist_buf = np.empty_like(box)
+                chains[c["chain"]] = {"traj": t, "buf": hist_buf}
         seen = None
         if t.unitcell_vectors is not None:
             seen = np.asarray(t.unitcell_vectors).astype(np.float32)
@@ -65,8 +83,27 @@ def main():
                 elif api == "core":
                     r = compute_distances_core(t.xyz, pairs, unitcell_vectors=t.unitcell_vectors, opt=call["opt"], **kw)
                 elif api == "core_raw":
-                    b = None if box is None else box.copy()
+                    if hist_buf is not None:
+                        hist_buf[...] = box              # same array object, new contents
+                        b = hist_buf
+                    else:
+                        b = None if box is None else box.copy()
                     r = compute_distances_core(xyz.copy(), pairs, unitcell_vectors=b, opt=call["opt"], **kw)
+                elif api == "glue":
+                    a = call["call_args"]
+                    gp = np.array(a["pairs"], dtype=np.int64).reshape(-1, 2)
+                    if a["fn"] == "core":
+                        gb = None if a.get("box") is None else np.array(a["box"], dtype=np.float32)
+                        r = compute_distances_core(xyz.copy(), gp, unitcell_vectors=gb, opt=call["opt"], **kw)
+                    elif a["fn"] == "dist":
+                        r = md.compute_distances(t, gp, opt=call["opt"], **kw)
+                    elif a["fn"] == "disp":
+                        r = md.compute_displacements(t, gp, opt=call["opt"], **kw)
+                    elif a["fn"] == "dist_t":
+                        gt = np.array(a["times"], dtype=np.int64).reshape(-1, 2)
+                        r = md.compute_distances_t(t, gp, gt, opt=call["opt"], **kw)
+                    else:
+                        raise RuntimeError("unknown glue fn " + a["fn"])
                 elif api == "fcc":
                     a1, a2, d = md.find_closest_contact(t, np.array(call["g1"], dtype=np.int64),
                                                         np.array(call["g2"], dtype=np.int64),
